@@ -139,8 +139,14 @@ def WCB.pushBounds (w : WCB) (b : Bounds) : WCB × Bool :=
 def WCB.pushField (w : WCB) (ty : Ty) : WCB :=
   if ty.mentions w.gps then { w with types := w.types ++ [ty] } else w
 
+/-- the first occurrence of every type (as written): the same type twice would give the same predicate twice, and for a
+type with a higher-ranked lifetime (`fn(&T)`, `Rc<dyn Fn(&T)>`) rustc cannot choose between the two (E0283; F40) -/
+def dedupTys (l : List Ty) : List Ty :=
+  l.foldl (fun acc t => if acc.any (fun u => u.toks == t.toks) then acc else acc ++ [t]) []
+
 /-- the where-clause items, in emission order -/
-def WCB.items (w : WCB) (f : Ty → GToks) : List GToks := w.types.map (fun t => f t.parenInWhere) ++ w.preds.map (fun p => U p.inWhere.toks)
+def WCB.items (w : WCB) (f : Ty → GToks) : List GToks :=
+  (dedupTys w.types).map (fun t => f t.parenInWhere) ++ w.preds.map (fun p => U p.inWhere.toks)
 
 def WCB.build (w : WCB) (f : Ty → GToks) : GToks :=
   let ws := w.items f
